@@ -43,3 +43,28 @@ def circuit_reach(name: str) -> float | None:
     if p.get("maximum_wire_distance") is not None:
         return float(p["maximum_wire_distance"])
     return None
+
+
+def draftsman_classes_with_condition_but_no_enable_flag() -> list[str]:
+    """Entity classes of the draftsman library (read from its *source* with ast, nothing is imported or run) that offer
+    `set_circuit_condition` (CircuitConditionMixin) but have no `circuit_enabled` attribute (no CircuitEnableMixin)."""
+    import ast as _ast
+    import importlib.util as _iu
+    from pathlib import Path as _P
+
+    spec = _iu.find_spec("draftsman")
+    if spec is None or not spec.submodule_search_locations:
+        return []
+    root = _P(list(spec.submodule_search_locations)[0]) / "prototypes"
+    out = []
+    for f in sorted(root.glob("*.py")):
+        try:
+            tree = _ast.parse(f.read_text(encoding="utf-8"))
+        except Exception:
+            continue
+        for n in tree.body:
+            if isinstance(n, _ast.ClassDef):
+                bases = {b.id if isinstance(b, _ast.Name) else getattr(b, "attr", "") for b in n.bases}
+                if "CircuitConditionMixin" in bases and "CircuitEnableMixin" not in bases:
+                    out.append(n.name)
+    return out
